@@ -512,6 +512,10 @@ def module_path_absolute(ctx):
     ABS = ("os.path.abspath", "os.path.realpath")
     for g, c in joins:
         wrapped = any(isinstance(a, ast.Call) and dotted(a.func) in ABS for a in ancestors(c))
+        if not wrapped and c.args:
+            # the directory made absolute first: joining onto an absolute path gives an absolute path
+            first = resolve_deep(g, c.args[0], 3)
+            wrapped = any(isinstance(a, ast.Call) and dotted(a.func) in ABS for a in ast.walk(first))
         if not wrapped:
             st = enclosing_stmt(c)
             tgt = st.targets[0].id if isinstance(st, ast.Assign) and len(st.targets) == 1 and isinstance(st.targets[0], ast.Name) else None
